@@ -2507,6 +2507,48 @@ class Exec:
                         exprs.append(tt.value)
         return names, exprs
 
+    def exit_only_names(self, s):
+        assigned_elsewhere, exit_only = set(), set()
+
+        def walk(block, in_this_loop=True):
+            for k, st in enumerate(block):
+                nxt = block[k + 1] if k + 1 < len(block) else None
+                leaves = isinstance(nxt, (ast.Break, ast.Return, ast.Raise))
+                if isinstance(st, ast.Assign) and all(isinstance(t, ast.Name) for t in st.targets):
+                    for t in st.targets:
+                        (exit_only if leaves else assigned_elsewhere).add(t.id)
+                elif isinstance(st, (ast.AugAssign, ast.AnnAssign)) and isinstance(st.target, ast.Name):
+                    assigned_elsewhere.add(st.target.id)
+                elif isinstance(st, (ast.For, ast.While)):
+                    # an inner loop: its `break` leaves only the inner loop, so nothing inside counts as exit-only for the outer one
+                    for nd in ast.walk(st):
+                        if isinstance(nd, ast.Name) and isinstance(nd.ctx, ast.Store):
+                            assigned_elsewhere.add(nd.id)
+                else:
+                    for fld in ("body", "orelse", "finalbody"):
+                        sub = getattr(st, fld, None)
+                        if isinstance(sub, list):
+                            walk(sub)
+                    for h in getattr(st, "handlers", []) or []:
+                        walk(h.body)
+                    if isinstance(st, (ast.With,)):
+                        pass
+                    # any other store (tuple targets, walrus, with-as, except-as): treat as an ordinary write
+                    if not isinstance(st, (ast.If, ast.Try, ast.With, ast.Assign, ast.AugAssign, ast.AnnAssign)):
+                        for nd in ast.walk(st):
+                            if isinstance(nd, ast.Name) and isinstance(nd.ctx, ast.Store):
+                                assigned_elsewhere.add(nd.id)
+                if isinstance(st, ast.Assign) and not all(isinstance(t, ast.Name) for t in st.targets):
+                    for nd in ast.walk(st):
+                        if isinstance(nd, ast.Name) and isinstance(nd.ctx, ast.Store):
+                            assigned_elsewhere.add(nd.id)
+        walk(s.body)
+        if isinstance(s, ast.For):
+            for nd in ast.walk(s.target):
+                if isinstance(nd, ast.Name):
+                    assigned_elsewhere.add(nd.id)
+        return exit_only - assigned_elsewhere
+
     def havoc_value(self, v, label):
         """fresh value of the same shape"""
         if isinstance(v, SV):
@@ -2625,6 +2667,9 @@ class Exec:
         if invs is None:
             raise OutsideSubset(f"loop {key} of {self.fn_ident} has no invariant")
         names, exprs = self.loop_targets(s)
+        # a local that is only ever assigned immediately before leaving the loop (`flag = False; break` / `x = v; return ...`) still has its
+        # pre-loop value at the head of every iteration: it is not havocked, so proofs do not depend on an invariant about such a temporary
+        names = names - self.exit_only_names(s)
         # ---- establish
         if kind == "range":
             self.locals[var] = I(lo)
